@@ -27,6 +27,7 @@ def main():
     violations, samples = [], []
     relevant = set()
     fam_counts = {}
+    tamper_pool = []
     n_hangs = [0]
     batches = []
     if "replay" in req:
@@ -83,7 +84,13 @@ def main():
                 probs = u.get("problems") or [u["problem"]]
                 all_calls = []
                 for pi, (p, res) in enumerate(zip(probs, o["solves"])):
+                    if res["result"] in ("ok", "unsolvable") and "dump" not in res and u.get("dump", True):
+                        print(json.dumps({"error": "driver returned no clause database for universe %s" % u["id"]}))
+                        sys.exit(3)
                     viol, tags = cert.check_solve(u, p, res, st, prop)
+                    if (prof == "dev" and len(tamper_pool) < 3 and res["result"] == "ok" and not viol
+                            and len(res.get("solution", [])) >= 2 and "dump" in res):
+                        tamper_pool.append((u, p, res))
                     if pi >= 1:
                         tags.add("C13")
                         # C13: verdict of a later call on the same solver is what z3 says about that problem alone
@@ -116,8 +123,36 @@ def main():
                                         "solution": res.get("solution"),
                                         "clauses": len(res.get("dump", {}).get("clauses", [])),
                                         "learnt": sum(1 for c in res.get("dump", {}).get("clauses", []) if c["kind"] == "learnt")})
+    # ---- vacuity guard: the oracle must notice a tampered certificate ------------------------------------------
+    selftest = {"ran": 0, "passed": 0}
+    if tamper_pool and "replay" not in req:
+        import copy
+        for (u, p, res) in tamper_pool[:3]:
+            d = res["dump"]
+            root_reqs = [c["id"] for c in d["clauses"] if c["kind"] == "requires" and c["meta"][0] == 0]
+            sol_vars = [v[0] for v in d["vars"] if v[1] == 1 and v[2] in res["solution"]]
+            if not root_reqs or not sol_vars:
+                continue
+            selftest["ran"] += 1
+            st2 = cert.Stats()
+            # (a) the root's requirement clauses go missing: the all-false selection then satisfies the clause database
+            #     -> `complete` must report that a root requirement is not enforced
+            r1 = copy.deepcopy(res)
+            r1["dump"]["clauses"] = [c for c in r1["dump"]["clauses"] if c["id"] not in root_reqs]
+            v1, _ = cert.check_solve(u, p, r1, st2, prop)
+            # (b) a bogus unit clause forbids a solvable of the (valid) solution -> `sound` must report it
+            r2 = copy.deepcopy(res)
+            r2["dump"]["clauses"].append({"id": 10 ** 6, "kind": "excluded", "lits": [[sol_vars[0], False]], "meta": [0, False, 0], "watched": False})
+            v2, _ = cert.check_solve(u, p, r2, st2, prop)
+            ok_a = any("does not enforce: root requires" in x["what"] for x in v1)
+            ok_b = bool(p.get("soft")) or any("not implied by the problem" in x["what"] for x in v2)   # `sound` is not asked with soft requirements
+            if ok_a and ok_b:
+                selftest["passed"] += 1
+        if selftest["ran"] and selftest["passed"] != selftest["ran"]:
+            print(json.dumps({"error": "vacuity guard: a tampered clause database was NOT rejected by the oracle (%s)" % selftest}))
+            sys.exit(3)
     out = {
-        "universes": sum(fam_counts.values()), "families": fam_counts, "profiles": [p for p in ("dev", "release") if p in bins],
+        "universes": sum(fam_counts.values()), "selftest": selftest, "families": fam_counts, "profiles": [p for p in ("dev", "release") if p in bins],
         "solves": st.solves, "verdicts": st.verdicts, "queries": st.queries, "by_kind": st.by_kind,
         "learnt_clauses": st.learnt_clauses, "graphs": st.graphs, "solver_time": round(st.solver_time, 2),
         "relevant": len(relevant), "hangs": n_hangs[0], "cvc5_cross_checked": getattr(st, "cvc5_checked", 0), "samples": samples, "violations": capped(violations, prop),
